@@ -20,14 +20,16 @@ type run struct {
 }
 
 func plan(tier string, seed uint64) []run {
+	// Measured (idle 16 cores): persisted flavour ≈ 1 ms wall per transition, in-memory ≈ 0.2 ms;
+	// quick = about 25 000 + 44 000 transitions, thorough about 16 times as many.
 	if tier == "thorough" {
 		return []run{
 			{"persisted clocks (GoGitRepo), one replica with a pre-fetched remote", Params{Seed: seed, Edit2: true, DelSingle: true, MaxIdent: 2, MaxNew: 3}, 8, 9 * time.Minute},
-			{"in-memory clocks (mockRepo)", Params{Mem: true, Seed: seed, Edit2: true, MaxIdent: 2, MaxNew: 3}, 9, 3 * time.Minute},
+			{"in-memory clocks (mockRepo)", Params{Mem: true, Seed: seed, Edit2: true, MaxIdent: 2, MaxNew: 3}, 9, 4 * time.Minute},
 		}
 	}
 	return []run{
-		{"persisted clocks (GoGitRepo), one replica with a pre-fetched remote", Params{Seed: seed, Edit2: true, DelSingle: true, MaxIdent: 1, MaxNew: 2}, 7, 100 * time.Second},
+		{"persisted clocks (GoGitRepo), one replica with a pre-fetched remote", Params{Seed: seed, Edit2: true, DelSingle: true, MaxIdent: 1, MaxNew: 2}, 6, 150 * time.Second},
 		{"in-memory clocks (mockRepo)", Params{Mem: true, Seed: seed, Edit2: true, MaxIdent: 1, MaxNew: 2}, 7, 60 * time.Second},
 	}
 }
@@ -40,6 +42,7 @@ func Main(args []string) {
 	replay := fs.String("replay", "", "replay file")
 	depthOverride := fs.Int("depth", 0, "override depth of every run")
 	only := fs.String("only", "", "run only 'monitor' or 'machine'")
+	budgetX := fs.Int("budgetx", 1, "multiply the time budgets of the machine (experiments)")
 	fs.Parse(args)
 	if *replay != "" {
 		os.Exit(syncrun.Replay(*replay))
@@ -85,7 +88,7 @@ func Main(args []string) {
 				depth = *depthOverride
 			}
 			cfg := xstate.Config{Property: "C05", Model: "c05b", Params: r.params.String(), MaxDepth: depth,
-				Deadline: time.Now().Add(r.budget), Log: os.Stderr}
+				Deadline: time.Now().Add(r.budget * time.Duration(*budgetX)), Log: os.Stderr}
 			fmt.Fprintf(os.Stderr, "== C05 clock machine: %s (depth %d)\n", r.name, depth)
 			res := xstate.Run(cfg)
 			cov["states"] = cov["states"].(int) + res.States
